@@ -86,7 +86,7 @@ TEXT = {
     "C16": {
         "level": "Theorems (Props/C16.lean): derive_keeps_rootKeyId and rootKeyId_invariant over all derivation histories (append / seal / reload), build_reports_id, "
                  "selectKey_none / selectKey_some_ok / selectKey_some_absent / selectKey_ignores_default (exactly the key registered under the token's id, never the default, "
-                 "never another id), acceptWithKeys_uses_selected; pinned witnesses pinned_append_drops_id / pinned_seal_drops_id (D12). Tied by derivation histories reading "
+                 "never another id), selectKey_only_own_entries (entries under other ids have no influence), selectKey_registered (converse, for a key map), acceptWithKeys_uses_selected, derived_selects_creation_key / derived_accept_under_creation_key (after any history the chain is verified under the key selected by the creation id); pinned witnesses pinned_append_drops_id / pinned_seal_drops_id (D12). Tied by derivation histories reading "
                  "RootKeyID() after every step and by key-lookup CHAIN cases over 7 map/default scenarios.",
         "note": COMMON_NOTE + "ed25519 as oracle.",
         "technique": "Lean 4 proof (invariant over derivation histories, decision logic stated outright) + differential correspondence",
